@@ -31,7 +31,7 @@ BUDGET = {'quick': (8, 240), 'thorough': (16, 1800)}
 ALPHA = ['a', "'", '"', '\\', '%', ':', ';', '-', '\n']
 CONTROL = ['\r', '\x00', '\x1a', '\t', '\b', '\x7f', 'a\rb', "'\r'", '\r\n', '\\\r']
 OUTPUTS = ['to_string', 'mysql', 'postgresql', 'sqlite', 'mssql', 'oracle']
-POSITIONS = ['select', 'where', 'in', 'insert', 'update', 'in-long', 'in-mixed']
+POSITIONS = ['select', 'where', 'in', 'insert', 'update', 'in-long', 'in-mixed', 'neg', 'minus-right', 'div-right']
 INJECTION = ["' OR 1=1 -- ", "\\' OR 1=1 -- ", "'; DROP TABLE t; --", "a' UNION SELECT 'b", "\\", "a\\", "\\\\'", "x'/*", "*/'", "%s", "%(x)s", ":x", ":1",
              "it's", "''", "'\\''", '"', 'a"b', "\\'", "\\\"", "line1\nline2", "tab\there", "nul\x00byte", "é'é", "漢'字", "🙂", "--", "/*", ";", "${x}", "{}", "%%"]
 MARK = 'QXQ'
@@ -109,6 +109,14 @@ def build(pos, value):
         items = [A.Constant(1000 + i) for i in range(40)] + [c] + [A.Constant(f's{i}') for i in range(40)]
         return A.Select(targets=[A.Identifier('a')], from_table=A.Identifier('t1'),
                         where=A.BinaryOperation('in', args=[A.Identifier('b'), A.Tuple(items)]))
+    if pos == 'neg':
+        # directly under a unary minus / to the right of a binary minus / of a division: the sign or first character of the literal
+        # must not join the operator into another token (`--`, `/*`)
+        return A.Select(targets=[A.UnaryOperation('-', args=[c], alias=A.Identifier('c1')), A.Identifier('zz')], from_table=A.Identifier('t1'))
+    if pos == 'minus-right':
+        return A.Select(targets=[A.BinaryOperation('-', args=[A.Identifier('a'), c], alias=A.Identifier('c1')), A.Identifier('zz')], from_table=A.Identifier('t1'))
+    if pos == 'div-right':
+        return A.Select(targets=[A.BinaryOperation('/', args=[A.Identifier('a'), c], alias=A.Identifier('c1')), A.Identifier('zz')], from_table=A.Identifier('t1'))
     if pos == 'insert':
         return A.Insert(table=A.Identifier('t1'), columns=[A.Identifier('b'), A.Identifier('zz')], values=[[c, A.Constant(7)]])
     if pos == 'update':
@@ -172,17 +180,54 @@ def decode_for(output, text, i):
     return decode(text, i, backslash=False)
 
 
+def comment_outside_literals(output, text):
+    """Does a comment start (`--`, `/*`, for MySQL / the library's own text also `#`) occur outside quoted text?"""
+    i, n = 0, len(text)
+    bs = output in ('mysql', 'to_string')
+    while i < n:
+        c = text[i]
+        if c in "'\"`":
+            j = i + 1
+            while j < n:
+                if bs and c != '`' and text[j] == '\\' and j + 1 < n:
+                    j += 2
+                    continue
+                if text[j] == c:
+                    if j + 1 < n and text[j + 1] == c:
+                        j += 2
+                        continue
+                    break
+                j += 1
+            i = j + 1
+            continue
+        if text.startswith('--', i) or text.startswith('/*', i) or (bs and c == '#'):
+            return text[max(0, i - 10):i + 12]
+        i += 1
+    return None
+
+
 def check_value(output, pos, v, benign_cache):
+    """None if ok, else (failure kind, detail)."""
+    k, det = _check_value(output, pos, v, benign_cache)
+    if k is None and isinstance(det, str) and not isinstance(v, str):
+        # the text must still have the statement's structure: no comment start formed by the literal and its neighbours
+        at = comment_outside_literals(output, det)
+        if at is not None:
+            return 'comment-start-formed-outside-literal', {'rendered': det[:300], 'at': at}
+    return k, det
+
+
+def _check_value(output, pos, v, benign_cache):
     """None if ok, else (failure kind, detail)."""
     key = (output, pos, type(v).__name__ if not isinstance(v, str) else 'str')
     if key not in benign_cache:
-        marker = MARK if isinstance(v, str) else 424242 if isinstance(v, (int, float)) and not isinstance(v, bool) else v
+        marker = MARK if isinstance(v, str) else 424242.5 if isinstance(v, float) else 424242 if isinstance(v, int) and not isinstance(v, bool) else v
         try:
             bt = render(output, build(pos, marker), '+' in pos)
         except Exception as e:
             benign_cache[key] = ('unsupported', type(e).__name__)
         else:
-            lit = "'" + MARK + "'" if isinstance(v, str) else '424242' if marker == 424242 else None
+            lit = "'" + MARK + "'" if isinstance(v, str) else '424242.5' if marker == 424242.5 and isinstance(v, float) else '424242' if marker == 424242 else None
             if lit is None or bt.count(lit) != 1:
                 benign_cache[key] = ('no-marker', bt)
             else:
@@ -245,6 +290,8 @@ def check_typed(output, pos, v, ht, pre, suf):
             return 'text-after-literal-changed', {'rendered': ht[:300]}
         body = ht[len(pre):len(ht) - len(suf)] if suf else ht[len(pre):]
     txt = body.strip()
+    while txt.startswith('(') and txt.endswith(')') and txt.count('(') == 1:
+        txt = txt[1:-1].strip()         # a literal in parentheses is the same literal
     if isinstance(v, bool):
         ok = re.search(r'\b(true|false|1|0)\b', ht, re.I) is not None
         want = ('true', '1') if v else ('false', '0')
